@@ -10,11 +10,17 @@ META = dict(
                "and every crash cut (k completed file-system calls + the next one torn after j bytes, on the data file or on the log file) recovery yields exactly the content at the last completed flush, "
                "with an empty log; plus C01_repair_torn_tail and witnesses that each of the three repaired defects broke it. C01_guarded_recovery_agrees: under the same hypotheses recovery WITH the position guard of "
                "apply_wal_record (a log record beyond the current end of the file is an error; model recover_g) succeeds and returns the same state, i.e. the guard never fires on a log the storage wrote; "
-               "C01_guard_fires: it does on a record beyond the end. The check reads off the source tree whether the guard is present and compares with recover_g or recover accordingly. Tie to /repo: generated Storage programs (insert, insert-at incl. beyond the end, "
+               "C01_guard_fires: it does on a record beyond the end. C01_recovery_restartable: recovery modelled as a sequence of file-system calls (cut the torn tail; per record newest first guard, undo, "
+               "remove the record from the log; clear) is itself crash safe: after a crash cut of normal operation and ANY number of recoveries each interrupted at any of its calls (incl. a torn undo write) the next "
+               "recovery completes without the guard firing and yields the content of the last completed flush; C01_recovery_calls_agree: on all files the call sequence ends in what the recovery function returns; "
+               "C01_simple_guard_refuted: with the guard but WITHOUT removing undone records an interrupted recovery leaves a file that can never be opened again (why the first version of the repair was rejected). "
+               "The check reads off the source tree whether the guard is present and compares with recover_g / recovery_calls true or recover / recovery_calls false accordingly. Tie to /repo: generated Storage programs (insert, insert-at incl. beyond the end, "
                "replace, resize, move, remove, optimize, nested transactions, storage dropped with an open transaction) run on the real Storage<FileStorage> and Storage<FileStorageMemoryMapped>; the hook snapshots both files before every "
                "mutating call (+ torn variants); every snapshot is recovered by the real FileStorage::new and compared with the committed bytes (direct oracle); the implementation's call trace and recovered "
                "contents are compared with the extracted model; the hypothesis 'no write starts beyond the end' is checked on every StorageData call the real Storage issued; "
-               "snapshots with a damaged log (positions moved, garbage records) are recovered by the real code and compared with the model (bytes or error).",
+               "snapshots with a damaged log (positions moved, garbage records) are recovered by the real code and compared with the model (bytes or error); the file-system calls the real recovery issues "
+               "(FileStorage::new on sampled snapshots and damaged logs, Drop rolling back an open transaction) are compared with the model's recovery_calls; snapshots taken INSIDE the rollback of Drop "
+               "(recovery interrupted) are recovered by the real code (direct oracle: committed bytes) and by the model.",
     design_ref="DESIGN.md §5 C01",
     level_note="Trusted: Coq kernel, extraction, OCaml driver, Rust harness incl. its snapshot/torn-copy routine; std::fs semantics; calls persist in issue order and torn writes are prefixes (fsync ordering is outside "
                "the code's own contract). The lifting 'every Storage operation sequence issues only well-positioned calls' is checked on the generated programs, not proved.",
@@ -62,7 +68,8 @@ def run(ctx):
              "FileStorageMemoryMapped; evaluations = crash snapshots recovered by the real code (every mutating call + up to 4 torn prefixes per log append and 3 per data write); non-trivial = program with "
              "a nested transaction and more than 20 snapshots; per program the full call trace and 16 sampled cuts are also compared with the model "
              "(%s); plus per program up to 6 snapshots whose LOG IS DAMAGED (a record's position moved inside the file / to its end / up to 300 bytes beyond it, a garbage "
-             "record appended, prepended, or alone) recovered by the real FileStorage::new and compared with the model's recovery of the same files (bytes | error)%s"
+             "record appended, prepended, or alone) recovered by the real FileStorage::new and compared with the model's recovery of the same files (bytes | error) and its call sequence; per program the "
+             "call sequence of the real recovery on 6 sampled snapshots and of Drop, and 6 snapshots taken inside Drop's rollback recovered by the model%s"
              % (n, steps, "position guard detected in the tree: the model is recover_g" if guard else "no position guard in the tree: the model is recover",
                 "" if guard else "; %d of them lie beyond the end and are not compared on this unguarded tree" % skipped),
         failures=failures, disagreements=dis,
